@@ -260,6 +260,8 @@ type world struct {
 	proxyG  *c.ProxyWorld  // policy: allowed_groups [g1]
 	proxyRst  *c.ProxyWorld // upstream resets every connection
 	proxySlow *c.ProxyWorld // upstream slower than the upstream's timeout (150ms)
+	proxySec  *c.ProxyWorld // cookie_secure = true
+	nNotes    int
 	ctlT    *authWorld     // like ctlA, behind http.TimeoutHandler with a 150ms request timeout
 	pHandlers map[*c.ProxyWorld]http.Handler
 	statsd  *statsd.Client
@@ -291,6 +293,7 @@ type authWorld struct {
 const (
 	authHost      = "sso-auth.example.test"
 	proxyHost     = "app.example.test"
+	proxyHost2    = "other.example.test"
 	cookieSecret  = "zaPX2fYMyegfOwwMEaMiphwrjgxz0pxoTbxvQiK9zBY="
 	codeKey       = "CrYro5Kp6CO2aBbVGoHgnh2/YQaz9cqqRYNbtTSUBDs="
 	proxyClientID = "proxy-client-id"
@@ -829,6 +832,10 @@ func (w *world) holeCase(h holeSpec, payload, got string) {
 func main() {
 	a := c.ParseArgs()
 	c.Quiet()
+	if a.Seed%2 == 0 {
+		// part of the runs in a zone east of UTC: signed timestamps and sealed deadlines are instants
+		time.Local = time.FixedZone("east", 9*3600+1800)
+	}
 	log.SetOutput(io.Discard) // net/http reports the cookie bytes it drops through the std logger
 	r := c.NewRng(a.Seed)
 	dir := c.Scratch(a.Out)
@@ -842,7 +849,15 @@ func main() {
 	c.Must(err)
 	closedAddr := cl.Addr().String()
 	cl.Close()
-	yaml := "- service: svc\n  default:\n    from: " + proxyHost + "\n    to: " + closedAddr + "\n    options:\n      allowed_email_domains: [\"corp.test\"]\n"
+	// two upstreams, configured in an order that depends on the seed (order effects of
+	// SetUpstreamConfigs / proxy.New: every upstream is checked, not only the last)
+	up := func(svc, host string) string {
+		return "- service: " + svc + "\n  default:\n    from: " + host + "\n    to: " + closedAddr + "\n    options:\n      allowed_email_domains: [\"corp.test\"]\n"
+	}
+	yaml := up("svc", proxyHost) + up("other", proxyHost2)
+	if a.Seed%2 == 0 {
+		yaml = up("other", proxyHost2) + up("svc", proxyHost)
+	}
 	pw, err := c.BuildProxy(c.ProxyOpts{YAML: yaml, Valid: time.Hour, Dir: dir}, fake)
 	c.Must(err)
 
@@ -881,6 +896,9 @@ func main() {
 	}
 	w.proxyRst = mk(strings.TrimPrefix(rst.URL, "http://"), "")
 	w.proxySlow = mk(strings.TrimPrefix(slow.URL, "http://"), "      timeout: 150ms\n")
+	// cookie_secure (the default of the binary): plain-http requests are upgraded by requireHTTPS
+	w.proxySec, err = c.BuildProxy(c.ProxyOpts{YAML: up("svc", proxyHost), Valid: time.Hour, Dir: dir, CookieSecure: true}, fake)
+	c.Must(err)
 	for _, d := range [][]string{{"example.com"}, {"@*"}, {"example.com", "example.org", "corp.test"}, nil} {
 		w.auths = append(w.auths, buildAuth(d))
 	}
@@ -913,7 +931,9 @@ func main() {
 		}
 	}
 	w.siteCorpus()
+	w.noteCorpus()
 	w.timeoutSequences()
+	w.overlapSequence()
 	nCorpus := len(w.cases)
 
 	// ---- generated ----
@@ -922,7 +942,7 @@ func main() {
 	nSites := n / 16
 	nDirect := n / 24
 	nJSON := n / 5
-	nHole := n - nHandler - nDirect - nJSON - nSites
+	nHole := n*2/5
 	for i := 0; i < nHandler; i++ {
 		aw := w.auths[r.Intn(len(w.auths))]
 		switch r.Intn(6) {
@@ -951,6 +971,9 @@ func main() {
 	}
 	for i := 0; i < nSites; i++ {
 		w.siteRandom(r)
+		if i%4 == 0 {
+			w.noteRandom(r)
+		}
 	}
 	curMode, curTS = rmode{}, 0
 	for i := 0; i < nDirect; i++ {
@@ -990,5 +1013,5 @@ func main() {
 		}
 	}
 	c.Must(c.WriteShards(a.Out, "Corr_C20", w.cases, a.Shard))
-	fmt.Printf("cases=%d corpus=%d pages=%d same=%d holes=%d json=%d diverged=%d\n", len(w.cases), nCorpus, w.nPages, w.nSame, w.nHoles, w.nJSON, w.nDiverged)
+	fmt.Printf("cases=%d corpus=%d pages=%d same=%d holes=%d json=%d notes=%d diverged=%d\n", len(w.cases), nCorpus, w.nPages, w.nSame, w.nHoles, w.nJSON, w.nNotes, w.nDiverged)
 }
